@@ -179,9 +179,9 @@ func verifAnalyzeWith(code string, host verifHost, needMain bool) verifAnalysis 
 // The number of blank lines before the failing construct is a selector, the failing values are host inputs.
 func VerifHarness_RuntimeSpans() {
 	pad := errors.VerifNdIntRange("pad", 0, 2)
-	kind := errors.VerifNdIntRange("kind", 0, 3)
+	kind := errors.VerifNdIntRange("kind", 0, 5)
 	backend := errors.VerifNdIntRange("backend", 0, 1)
-	errors.VerifTag("kind", []string{"uncaught-throw", "caught-throw", "index-fatal", "division-fatal"}[kind])
+	errors.VerifTag("kind", []string{"uncaught-throw", "caught-throw", "index-fatal", "division-fatal", "caught-throw-as-block-value", "uncaught-throw-as-let-value"}[kind])
 	errors.VerifTag("backend", []string{"vm", "tree"}[backend])
 	blank := strings.Repeat("\n", pad)
 	// statements that precede the failing construct in the same function: each compiles to jumps and labels
@@ -210,6 +210,12 @@ func VerifHarness_RuntimeSpans() {
 		code = "fn main() {\n" + blank + prelude + "  let l = [1]; println(l[A]);\n}\n"
 	case 3:
 		code = "fn main() {\n" + blank + prelude + "  println(1 / A);\n}\n"
+	case 4:
+		// the throw is the value of the try block (no statement of its own), one line below the `try`
+		code = "fn main() {\n" + blank + prelude + "  try {\n    throw(\"boom\")\n  } catch e { println(e.line, e.message); }\n}\n"
+	case 5:
+		// the throw is the initializer of a let, one line below the `let`
+		code = "fn main() {\n" + blank + prelude + "  let x =\n    throw(\"boom\");\n}\n"
 	}
 	a := errors.VerifNdInt64("A")
 	if kind == 2 {
@@ -236,6 +242,14 @@ func VerifHarness_RuntimeSpans() {
 		return
 	}
 	errors.VerifReached("ran")
+	if kind == 4 {
+		errors.VerifTag("got", errors.VerifNorm(o.out))
+		errors.VerifAssert("caught-exception-carries-the-throw-position", verifHasPrefix(o.out, preOut+fmt.Sprint(line+1)+" boom"))
+		return
+	}
+	if kind == 5 {
+		line++
+	}
 	if kind == 1 {
 		errors.VerifAssert("caught-exception-carries-the-throw-position", verifHasPrefix(o.out, preOut+fmt.Sprint(line)+" 3 boom") || verifHasPrefix(o.out, preOut+fmt.Sprint(line)+" 8 boom"))
 		return
